@@ -122,6 +122,84 @@ set_option maxRecDepth 8192 in
 example : (exec fixed init [.h (.st true) (.stub (.whenRet 1 5)), .h .im (.apply 2)]).inst (.st true) = .via 0
     ∧ (exec fixed init [.h (.st true) (.stub (.whenRet 1 5)), .h .im (.apply 2)]).inst .im = .cb 2 := by decide
 
+/-- **A later Apply supersedes earlier When/Return stubs** — stated outright for every lookup kind (Func, Struct.Method,
+    Interface.Method, ExportFunc, ExportStruct.Method): in every reachable state, whatever was configured before through
+    any handle, after `lookup.Apply(k)` a call of the looked-up target (resolved in the package the builder currently
+    names) with any argument runs callback `k`.  The only hypothesis besides reachability is that the name resolves
+    (`isPhantom = false`: goom rejects an Apply on a name that resolves to nothing, covered by C10/C13) and that the
+    handle is not the two-method interface variable (outside the proved part, see `refines_lww_partial`). -/
+theorem apply_supersedes (s : State) (a : Lww) (hw : WF s) (hr : R s a) (hd : Handle) (k x : Nat)
+    (hn : isI2H hd = false) (hp : isPhantom (tgtOf s.b.pkg hd) = false) :
+    (call (step fixed s (.h hd (.apply k))).1 (tgtOf s.b.pkg hd) x).2 = .k k := by
+  obtain ⟨hw1, hr1⟩ := step_sim hw hr (.h hd (.apply k)) rfl (by cases hd <;> simp_all [opI2, isI2H])
+  rw [(call_sim hw1 hr1 _ x).1, hr.pkg] at *
+  simp [Lww.step, Lww.onTgt, Lww.rejected, hp, Lww.instr, Lww.call, upd]
+
+/-- **A later Return after an Apply supersedes the callback, with a fresh configuration**: in every reachable state,
+    after `lookup.Apply(k)` followed by `lookup.Return(v)` on the same function or method, every call returns `v` — the
+    callback no longer runs and no stub configured before the Apply survives. -/
+theorem return_after_apply_supersedes (s : State) (a : Lww) (hw : WF s) (hr : R s a) (hd : Handle) (k v x : Nat)
+    (hn : isI2H hd = false) (hv : isVar (tgtOf s.b.pkg hd) = false) (hp : isPhantom (tgtOf s.b.pkg hd) = false)
+    (hpk : s.b.pkg = .p0) :
+    (call (step fixed (step fixed s (.h hd (.apply k))).1 (.h hd (.stub (.ret v)))).1 (tgtOf s.b.pkg hd) x).2 = .v v := by
+  have hi2 : opI2 (.h hd (.apply k)) = false := by cases hd <;> simp_all [opI2, isI2H]
+  have hi2' : opI2 (.h hd (.stub (.ret v))) = false := by cases hd <;> simp_all [opI2, isI2H]
+  obtain ⟨hw1, hr1⟩ := step_sim hw hr (.h hd (.apply k)) rfl hi2
+  obtain ⟨hw2, hr2⟩ := step_sim hw1 hr1 (.h hd (.stub (.ret v))) rfl hi2'
+  have hap : a.pkg = .p0 := by rw [← hr.pkg]; exact hpk
+  rw [hpk] at hp hv ⊢
+  rw [(call_sim hw2 hr2 _ x).1]
+  have e1 : a.step (.h hd (.apply k)) = { a with pkg := .p0, beh := upd a.beh (tgtOf .p0 hd) (.cb k) } := by
+    simp [Lww.step, Lww.onTgt, Lww.rejected, hp, hap, Lww.instr]
+  have e2 : (a.step (.h hd (.apply k))).step (.h hd (.stub (.ret v))) =
+      { a with pkg := .p0, beh := upd (upd a.beh (tgtOf .p0 hd) (.cb k)) (tgtOf .p0 hd) (.stub (When.fresh (.ret v))) } := by
+    rw [e1]; simp [Lww.step, Lww.onTgt, Lww.rejected, hp, hv, Lww.instr, upd]
+  rw [e2]
+  simp [Lww.call, upd, When.fresh, When.create, When.invoke, When.result, When.matchesArg]
+
+/-- **Asking again for the mocker continues the existing configuration instead of discarding it**: in every
+    reachable state, after Reset, `lookup.When(1).Return(5)` followed by a second lookup of the same function or method
+    and `.When(2).Return(6)` leaves BOTH conditions in force — a call with argument 1 returns 5, a call with argument 2
+    returns 6, and any other argument finds no condition and no default (goom's "there is no suitable condition" panic). -/
+theorem repeated_lookup_accumulates (s : State) (a : Lww) (hw : WF s) (hr : R s a) (hd : Handle) (x : Nat)
+    (hn : isI2H hd = false) (hv : isVar (tgtOf s.b.pkg hd) = false) (hp : isPhantom (tgtOf s.b.pkg hd) = false)
+    (hpk : s.b.pkg = .p0) (hx : x ≠ 1 ∧ x ≠ 2) :
+    let s3 := (step fixed (step fixed (step fixed s .reset).1 (.h hd (.stub (.whenRet 1 5)))).1 (.h hd (.stub (.whenRet 2 6)))).1
+    (call s3 (tgtOf s.b.pkg hd) 1).2 = .v 5 ∧ (call s3 (tgtOf s.b.pkg hd) 2).2 = .v 6 ∧ (call s3 (tgtOf s.b.pkg hd) x).2 = .p := by
+  intro s3
+  have hi2 : ∀ st, opI2 (.h hd (.stub st)) = false := by intro st; cases hd <;> simp_all [opI2, isI2H]
+  obtain ⟨hw1, hr1⟩ := step_sim hw hr .reset rfl
+  obtain ⟨hw2, hr2⟩ := step_sim hw1 hr1 (.h hd (.stub (.whenRet 1 5))) rfl (hi2 _)
+  obtain ⟨hw3, hr3⟩ := step_sim hw2 hr2 (.h hd (.stub (.whenRet 2 6))) rfl (hi2 _)
+  have hap : a.pkg = .p0 := by rw [← hr.pkg]; exact hpk
+  rw [hpk] at hp hv ⊢
+  have e : (((a.step .reset).step (.h hd (.stub (.whenRet 1 5)))).step (.h hd (.stub (.whenRet 2 6)))).beh (tgtOf .p0 hd) =
+      Beh.stub ((When.fresh (.whenRet 1 5)).step (.whenRet 2 6)) := by
+    simp [Lww.step, Lww.onTgt, Lww.rejected, hp, hv, hap, Lww.instr, upd]
+  refine ⟨?_, ?_, ?_⟩
+  · rw [(call_sim hw3 hr3 _ 1).1]; simp only [Lww.call, e]; decide
+  · rw [(call_sim hw3 hr3 _ 2).1]; simp only [Lww.call, e]; decide
+  · rw [(call_sim hw3 hr3 _ x).1]; simp only [Lww.call, e]
+    have h1 : (1 == x) = false := by rw [beq_eq_false_iff_ne]; exact fun h => hx.1 h.symm
+    have h2 : (2 == x) = false := by rw [beq_eq_false_iff_ne]; exact fun h => hx.2 h.symm
+    simp [When.fresh, When.create, When.step, When.when_, When.ret, When.newMatcher, When.addResult,
+      When.invoke, When.matchesArg, List.find?, h1, h2]
+
+set_option maxRecDepth 8192 in
+/-- the hypotheses of `apply_supersedes` / `return_after_apply_supersedes` are met by a reachable state that already
+    carries a conditional stub on the target (`Struct(T).Method(M).When(1).Return(5)`), and the conclusion is not the
+    trivial one: before the Apply a call with argument 1 returns 5 -/
+example : isPhantom (tgtOf (exec fixed init [.h (.st true) (.stub (.whenRet 1 5))]).b.pkg (.st true)) = false
+    ∧ (call (exec fixed init [.h (.st true) (.stub (.whenRet 1 5))]) (.st true) 1).2 = .v 5
+    ∧ (call (step fixed (exec fixed init [.h (.st true) (.stub (.whenRet 1 5))]) (.h (.st true) (.apply 2))).1 (.st true) 1).2 = .k 2 := by
+  decide
+
+set_option maxRecDepth 8192 in
+/-- `repeated_lookup_accumulates` on a concrete reachable state (a callback was installed before the Reset) -/
+example : (call (exec fixed init [.h (.fn false) (.apply 3), .reset, .h (.fn false) (.stub (.whenRet 1 5)),
+      .h (.fn false) (.stub (.whenRet 2 6))]) (.fn false) 2).2 = .v 6
+    ∧ (exec fixed init [.h (.fn false) (.apply 3)]).b.pkg = .p0 := by decide
+
 /-- the package a lookup op is issued from (`none`: the op performs no lookup) -/
 def callerOf : Op → Option Pkg
   | .h _ _ => some .p0
